@@ -260,7 +260,7 @@ def classify(f, ctx):
         return run(case, w, caching, tags=make_tags(case, w))[0][0]
 
     r = KF.attribute(f, fresh_run, exp, mentioned_not_selected=False,
-                     compare=_missing_only)
+                     compare=_missing_only, nvars=len(case["kinds"]))
     return r if r == "K05" else None
 
 
